@@ -2,6 +2,7 @@
 from rules import fmt as F
 from rules import extra as X
 from rules.core import guarded
+from rules import opts as O
 
 INFO = {
     "explanation": "The packed-format bit layout, the builder<->flag<->rebuild pairing of all 37 fields, the constraint table of format_error_impl (every documented constraint has a rejecting branch with the right polarity and error, in both cfg variants), is_valid_radix per feature set, build_strict's Success-only return and validation-before-use at every *_with_options entry point are decided on the MIR of every configuration.",
@@ -21,3 +22,5 @@ def run(col, configs, tier):
         guarded(col, X.rule_byte_predicates, facts)
         guarded(col, X.rule_control_radices, facts)
         guarded(col, X.rule_punctuation_pairs, facts)
+        for crate in ("lexical_write_float", "lexical_parse_float", "lexical_write_integer", "lexical_parse_integer"):
+            guarded(col, O.rule_is_valid_agrees_with_build, facts, crate)
